@@ -30,6 +30,7 @@ ASSUMPTIONS = ["json / yaml (PyYAML safe_load) / pickle read back the dict of pr
 TRUSTED = ["stdlib argparse: only its empty-command-line behaviour is used (defaults stored, required check, string defaults "
            "converted by type=), modelled in ConfigLoop.emptyArgvValue"]
 EXHAUSTIVE = {"quick": False, "thorough": False}
+THOROUGH_ROUNDS = 3   # thorough tier: this many generator passes with derived PRNG states (vcheck)
 MANIFEST = {
     "text": ("Proof (partial): Lean model of to_dict/encode on the command-line grammar, of set_defaults(config_path) for both "
              "file layouts, of DataclassWrapper.set_default, of the FieldWrapper default cascade (a null is an absent key), of "
